@@ -989,7 +989,9 @@ CallBuiltin(name, pos, named, m, line) ==
               ELSE LET ks == KeysUnderLock(pos[1], io.items, io.a, m, line) IN
                    IF ~Ok(ks.m) THEN R(ks.m, NoneV)
                    ELSE IF name = "map" THEN NewList(ks.m, ks.vs)
-                   ELSE LET keep == SelectSeq([j \in 1..Len(io.items) |-> j], LAMBDA j : Truth(ks.vs[j], ks.m.heap))
+                   \* filter(None, xs) removes the None values (this dialect's documented rule)
+                   ELSE LET keep == SelectSeq([j \in 1..Len(io.items) |-> j],
+                                              LAMBDA j : IF pos[1].t = "none" THEN io.items[j].t # "none" ELSE Truth(ks.vs[j], ks.m.heap))
                         IN NewList(ks.m, [j \in 1..Len(keep) |-> io.items[keep[j]]]))
     ELSE IF name = "field" THEN
         \* field(type[, default]): the type is one of the basic type names; the default must belong to it
